@@ -37,6 +37,7 @@ BAD = {
     "dup-field-middle": 'version: "3"\nstruct A { x @0: u8, }\nstruct B { z @0: u8, z @1: u8, }\nstruct C { w @0: u8, }\nimpl can for A { id: 1, device: "ecu", }\n',
     "dup-enumerator-name": 'version: "3"\nstruct A { x @0: u8, }\nimpl can for A { id: 1, device: "ecu", }\nenum E { a = 0, a = 1, }\n',
     "dup-enumerator-value": 'version: "3"\nenum E { a = 0, b = 0, }\nstruct A { x @0: u8, }\nimpl can for A { id: 1, device: "ecu", }\n',
+    "device-unknown-service-after-a-device-without-services": 'version: "3"\nstruct A { x @0: u8, }\nimpl can for A { id: 1, device: "ecu", }\nservice Svc @0 { method m(A) @0 returns A, }\ndevice dash { node: 3, }\ndevice ecu { services: [Svc], }\ndevice bms { services: [Svc, Nope], }\n',
     "device-unknown-service": 'version: "3"\nstruct A { x @0: u8, }\nimpl can for A { id: 1, device: "ecu", }\ndevice ecu { services: [Nope], }\n',
 }
 BAD_PLUGIN = {
